@@ -124,6 +124,19 @@ def _script(rng, names, all_names):
     return clauses
 
 
+def _fact_arg(rng, j):
+    """argument j of an asserted fact: mostly constants; also a variable (its own), a compound term, an integer - facts of one
+    name/arity with different kinds of first argument must still be tried in assertion order"""
+    t = rng.random()
+    if t < 0.62:
+        return rng.choice(CONSTS)
+    if t < 0.78:
+        return var("_F%d" % j)
+    if t < 0.9:
+        return fun("f", rng.choice(CONSTS[:2]))
+    return int_(rng.randint(0, 2))
+
+
 def make_scenario(seed, i):
     rng = random.Random(seed * 1000003 + i * 7919 + 11)
     names = ["p", "q", "r"][:rng.choice([2, 3, 3])]
@@ -157,7 +170,7 @@ def make_scenario(seed, i):
         elif r < 0.94:
             ar = rng.randint(0, 2)
             ops.append({"op": "assert", "how": rng.choice(["fact_z", "fact_a", "assertz", "asserta"]),
-                        "term": fun(name, *[rng.choice(CONSTS) for _ in range(ar)])})
+                        "term": fun(name, *[_fact_arg(rng, j) for j in range(ar)])})
         else:
             ops.append({"op": "clear"})
     return untup({"names": names, "ops": ops})
